@@ -1,4 +1,4 @@
-P('C13', shards=16, fuzz=[('FuzzTextLine', 60)],
+P('C13', shards=16, fuzz=[('FuzzTextLine', 90)],
   technique='property-based testing (rapid attribute-tree / chain generators with hostile keys and group names) + exhaustive short strings / Unicode scalars + native fuzzing; oracle: independent key=value tokenizer (strconv.QuotedPrefix/Unquote) and a value-text model',
   text='Generated records (hostile messages, keys, group names and values: spaces, =, quotes, backslashes, controls, Unicode spaces, zero-width and non-printing runes, invalid UTF-8, empty; TextMarshaler ok/failing, error, []byte, AnsiString, '
        'LogValuer, nested/inline groups, With/WithGroup chains) are written by the real Text handler; the single written line must be consumed completely by an independent tokenizer as space-separated key=value tokens (bare or Go-quoted) and the unquoted '
